@@ -171,20 +171,24 @@ Record ctl := mkCtl {
   sd_sdreq : list (Z * name);
   sd_sdres : list (Z * Z);
   sd_dmpdu : list pdu;
-  sd_wait : list name }.               (* resolve() calls blocked in resp.wait(), oldest first *)
+  sd_wait : list name;                 (* resolve() calls blocked in resp.wait(), oldest first *)
+  c_enq_blocks : bool }.               (* which code this is (constant of a history, told by the harness from the source):
+                                          true  = DataLinkConnection.enqueue calls close() for a non connection-mode PDU in
+                                                  every state (in state ESTABLISHED the link thread then waits for a DM)
+                                          false = as repaired by fixes/c07-7: in state ESTABLISHED only the FRMR is queued *)
 
 Definition set_sap (c : ctl) (t : list sapent) : ctl :=
-  mkCtl t (c_snl c) (c_socks c) (sd_cache c) (sd_tids c) (sd_sent c) (sd_sdreq c) (sd_sdres c) (sd_dmpdu c) (sd_wait c).
+  mkCtl t (c_snl c) (c_socks c) (sd_cache c) (sd_tids c) (sd_sent c) (sd_sdreq c) (sd_sdres c) (sd_dmpdu c) (sd_wait c) (c_enq_blocks c).
 Definition set_snl (c : ctl) (n : list (name * Z)) : ctl :=
-  mkCtl (c_sap c) n (c_socks c) (sd_cache c) (sd_tids c) (sd_sent c) (sd_sdreq c) (sd_sdres c) (sd_dmpdu c) (sd_wait c).
+  mkCtl (c_sap c) n (c_socks c) (sd_cache c) (sd_tids c) (sd_sent c) (sd_sdreq c) (sd_sdres c) (sd_dmpdu c) (sd_wait c) (c_enq_blocks c).
 Definition set_socks (c : ctl) (l : list sock) : ctl :=
-  mkCtl (c_sap c) (c_snl c) l (sd_cache c) (sd_tids c) (sd_sent c) (sd_sdreq c) (sd_sdres c) (sd_dmpdu c) (sd_wait c).
+  mkCtl (c_sap c) (c_snl c) l (sd_cache c) (sd_tids c) (sd_sent c) (sd_sdreq c) (sd_sdres c) (sd_dmpdu c) (sd_wait c) (c_enq_blocks c).
 Definition set_dmpdu (c : ctl) (l : list pdu) : ctl :=
-  mkCtl (c_sap c) (c_snl c) (c_socks c) (sd_cache c) (sd_tids c) (sd_sent c) (sd_sdreq c) (sd_sdres c) l (sd_wait c).
+  mkCtl (c_sap c) (c_snl c) (c_socks c) (sd_cache c) (sd_tids c) (sd_sent c) (sd_sdreq c) (sd_sdres c) l (sd_wait c) (c_enq_blocks c).
 
 Definition init_sap : list sapent := Sap [] [] :: SapSD :: repeat SapNone 62.
-Definition init_ctl : ctl :=
-  mkCtl init_sap [(name_sdp, 1)] [] [] (zrange 0 256) [] [] [] [] [].
+Definition init_ctl (blocks : bool) : ctl :=
+  mkCtl init_sap [(name_sdp, 1)] [] [] (zrange 0 256) [] [] [] [] [] blocks.
 
 Fixpoint lookup {V} (l : list (name * V)) (n : name) : option V :=
   match l with [] => None | (k, v) :: t => if name_eqb k n then Some v else lookup t n end.
@@ -617,7 +621,7 @@ Fixpoint remove_z (l : list Z) (x : Z) : list Z :=
   match l with [] => [] | y :: t => if y =? x then t else y :: remove_z t x end.
 
 Definition set_sd (c : ctl) cache tids sent sdreq sdres wait : ctl :=
-  mkCtl (c_sap c) (c_snl c) (c_socks c) cache tids sent sdreq sdres (sd_dmpdu c) wait.
+  mkCtl (c_sap c) (c_snl c) (c_socks c) cache tids sent sdreq sdres (sd_dmpdu c) wait (c_enq_blocks c).
 
 (* k: the value random.choice picks is tids[k mod len(tids)] *)
 Definition do_resolve (c : ctl) (n : name) (k : Z) : R :=
@@ -765,6 +769,9 @@ Definition sock_enqueue (c : ctl) (i : nat) (s : sock) (p : pdu) : DR :=
   | TDlc =>
     if negb (is_dlc_pdu p) then
       let frmr := PFrmr (pdu_ssap p) (pdu_dsap p) 8 (pdu_ptype p) in
+      if negb (c_enq_blocks c) && sstate_eqb (s_state s) StEstablished then
+        (put_sock c i (set_sendq s [frmr]), Ok [])     (* send_queue.clear(); append(frmr): shut down when the FRMR is dequeued *)
+      else
       match sock_close s with
       | None => (c, Hang)                                   (* close() waits inside the run thread *)
       | Some s' =>
@@ -934,7 +941,7 @@ Inductive op :=
 | XXfer (from : side) (a : Z) (miu : Z).     (* collect one PDU at SAP a of [from], dispatch it at the peer *)
 
 Definition sys := (ctl * ctl)%type.
-Definition init_sys : sys := (init_ctl, init_ctl).
+Definition init_sys (blocks : bool) : sys := (init_ctl blocks, init_ctl blocks).
 Definition get_side (st : sys) (sd : side) : ctl := match sd with SA => fst st | SB => snd st end.
 Definition set_side (st : sys) (sd : side) (c : ctl) : sys :=
   match sd with SA => (c, snd st) | SB => (fst st, c) end.
@@ -965,4 +972,4 @@ Fixpoint run (st : sys) (ops : list op) : sys * list (res out) :=
     | _ => let '(st'', rs) := run st' t in (st'', r :: rs)
     end
   end.
-Definition final (ops : list op) : sys := fst (run init_sys ops).
+Definition final (blocks : bool) (ops : list op) : sys := fst (run (init_sys blocks) ops).
